@@ -13,31 +13,24 @@ def grpGU : Atom → Bool
 
 set_option maxHeartbeats 4000000 in
 theorem pairGeneral_conforms_GU (m : Mode) (op : Op) (a b : Atom) (hg : grpGU a = true)
-    (h1 : trigTol false op a b = false) (h2 : trigPromotion false a b = false)
-    (h4 : trigUntyped op a b = false)
+    (h1 : trigTol op a b = false) (h2 : trigPromotion a b = false)
     (h5 : pairSpec m op a b ≠ .error .unsupported) (h6 : pairGeneral m op a b ≠ .error .unsupported)
-    (h8 : dtConsistent a b = true) (h9 : trigUntypedQN m a b = false) :
+    (h8 : dtConsistent a b = true) :
     pairGeneral m op a b = pairSpec m op a b := by
   cases a <;> simp [grpGU] at hg <;> cases b <;>
       first
       | (gp_simp; done)
-      | (simp [trigUntyped, isTemporal, Atom.isDT, Atom.isDur] at h4; done)
       | (simp [dtConsistent, Atom.isDT, Atom.dt] at h8; gp_simp; simp [dtCompare_eq_six _ _ _ h8]; done)
       | skip
   case ua.str s t => exact (pg_str_str m op s t).2.2.2.2.2
   case ua.ua s t => exact pg_ua_ua m op s t
-  case ua.int s v =>
-    simp [trigPromotion, numRank, exactVal, castNum] at h2
-    exact pg_ua_num m op s _ (.fin v) (Or.inl ⟨v, rfl, rfl, h2⟩) h5
+  case ua.int s v => exact pg_ua_num m op s _ .nan (Or.inl ⟨v, rfl⟩) h5
   case ua.dbl s d => exact pg_ua_num m op s _ d (Or.inr (Or.inl rfl)) h5
   case ua.flt s d => exact pg_ua_num m op s _ d (Or.inr (Or.inr (Or.inr rfl))) h5
   case ua.dec s q => exact pg_ua_num m op s _ .nan (Or.inr (Or.inr (Or.inl ⟨q, rfl⟩))) h5
   case ua.bool s y => exact (pg_ua_bool m op s y).1
   case ua.uri s t => exact pg_ua_uri m op s t h6
-  case ua.qn s ns pre loc =>
-    have hm : m = .v31 := by simpa [trigUntypedQN] using h9
-    subst hm
-    exact pg_ua_qn op s ns pre loc h5
+  case ua.qn s ns pre loc => exact pg_ua_qn m op s ns pre loc h5
   case ua.date => exact pg_ua_temporal m op _ _ rfl h5
   case ua.dtm => exact pg_ua_temporal m op _ _ rfl h5
   case ua.time => exact pg_ua_temporal m op _ _ rfl h5
